@@ -38,6 +38,7 @@ fn entry_alphabet() -> Vec<Entry> {
     v.push(def("forall X (out(X) <-> in(X))", ("out", 1), Some("defines a task predicate")));
     v.push(def("forall X (aux(X) <-> in(X))", ("aux", 1), None)); // valid only where aux is not a task predicate
     v.push(def("forall X (aux_p(X) <-> in(X))", ("aux_p", 1), None)); // valid only if aux_p does not occur in the emitted task
+    v.push(def("forall X (in2(X) <-> in(X) and X > 1)", ("in2", 1), None)); // valid only where in2 is not declared / used by the task
     v.push(def("forall X (d3(X, X) <-> in(X))", ("d3", 2), Some("repeated / mismatching variables")));
     v.push(def("forall X (d3(1) <-> in(X))", ("d3", 1), Some("non-variable argument")));
     v.push(def("forall X (d3(X) <-> in(Y))", ("d3", 1), Some("free variable in the body")));
@@ -55,6 +56,8 @@ fn base_tasks() -> Vec<ExtTask> {
         mk("out(X) :- in(X), not aux(X). aux(X) :- in(X), X > 1.", false, "aux(X) :- in(X), X <= 1. out(X) :- aux(X).", "input: in/1. output: out/1."),
         mk("spec(universal)[s1]: forall X (out(X) -> in(X)). spec(backward)[s2]: forall X (in(X) -> out(X)). assumption(forward)[a1]: forall X (in(X) -> X > 0).", true, "out(X) :- in(X).", "input: in/1. output: out/1."),
         mk("out(X) :- in(X), X <= n.", false, "out(X) :- in(X), not X > n.", "input: in/1. output: out/1. input: n -> integer."),
+        mk("out(X) :- in(X).", false, "out(X) :- in(X), not not in(X).", "input: in/1. input: in2/1. output: out/1. assumption[ug1]: exists X in2(X)."),
+        mk("out(X) :- in(X).", false, "out(X) :- in(X), not not in(X).", "input: in/1. input: in2/1. output: out/1."),
     ]
 }
 
@@ -385,11 +388,17 @@ pub fn run(run: &Run) {
             v
         })
         .collect();
-    // task predicates: those of the emitted problems without outline
+    // task predicates: those of the emitted problems without outline and those the user guide declares
     let task_preds: Vec<Vec<(String, usize)>> = plain_cache
         .iter()
-        .map(|fam| {
+        .enumerate()
+        .map(|(ti, fam)| {
             let mut v: Vec<(String, usize)> = vec![];
+            if let Ok(ug) = tasks[ti].ug.parse::<fol::UserGuide>() {
+                for q in ug.public_predicates() {
+                    v.push((q.symbol, q.arity));
+                }
+            }
             for (_, _, ps) in fam {
                 for p in ps {
                     for q in p.predicates() {
@@ -465,4 +474,44 @@ pub fn run(run: &Run) {
             run.sample(json!({"outline": o.text}));
         }
     });
+}
+
+pub fn replay(v: &Value) -> i32 {
+    let item = if v["replay"]["item"].is_null() { &v["replay"] } else { &v["replay"]["item"] };
+    let t = &item["task"];
+    let task = ExtTask {
+        left: t["left"].as_str().unwrap_or("").into(),
+        left_is_spec: t["left_is_spec"].as_bool().unwrap_or(false),
+        right: t["right"].as_str().unwrap_or("").into(),
+        ug: t["user_guide"].as_str().unwrap_or("").into(),
+        po: t["proof_outline"].as_str().unwrap_or("").into(),
+    };
+    let d = item["direction"].as_str().unwrap_or("universal");
+    let dec = if item["decomposition"].as_str() == Some("Independent") { Decomposition::Independent } else { Decomposition::Sequential };
+    let dd = match d {
+        "forward" => fol::Direction::Forward,
+        "backward" => fol::Direction::Backward,
+        _ => fol::Direction::Universal,
+    };
+    let f = Flags { dec, simplify: true, eqb: true };
+    let mut plain_task = task.clone();
+    plain_task.po = String::new();
+    let plain = build_external(&plain_task, &f, dd, false).unwrap_or_default();
+    match build_external(&task, &f, dd, false) {
+        Err(e) => {
+            println!("replay: outline refused: {e}");
+            0
+        }
+        Ok(ps) => {
+            println!("replay: outline accepted, {} problems: {:?}", ps.len(), ps.iter().map(|p| p.name.clone()).collect::<Vec<_>>());
+            for p in &ps {
+                if p.name.contains("outline") {
+                    println!("  {}: axioms {:?}", p.name, p.formulas.iter().filter(|f| f.role == Role::Axiom).map(|f| strip(&f.name)).collect::<Vec<_>>());
+                }
+            }
+            let _ = plain;
+            println!("replay: the full structural oracle needs the parsed outline entries; run ./check C13 for the verdict");
+            1
+        }
+    }
 }
